@@ -12,6 +12,10 @@ pub struct CutSpec<T> {
     pub node: T,
     pub name: String,
     pub constraints: Vec<String>,
+    /// relational constraints between terms (may mention this and earlier cut nodes)
+    pub rels: Vec<Goal<T>>,
+    /// local cuts are applied only to goals that name them (prove_cuts)
+    pub local: bool,
 }
 
 pub struct Outcome<T> {
@@ -41,6 +45,17 @@ impl<T: Scalar> Outcome<T> {
         g.scale = Some(scale);
         self.goals.push(g);
     }
+    /// goal proved with only the cuts whose names start with one of `prefixes`
+    pub fn prove_cuts(&mut self, name: impl Into<String>, l: T, rel: Rel, r: T, prefixes: &[&str]) {
+        let mut g = goal(name, l, rel, r);
+        g.only_cuts = Some(prefixes.iter().map(|s| s.to_string()).collect());
+        self.goals.push(g);
+    }
+    pub fn twin_cuts(&mut self, name: impl Into<String>, l: T, rel: Rel, r: T, prefixes: &[&str]) {
+        let mut g = goal(name, l, rel, r);
+        g.only_cuts = Some(prefixes.iter().map(|s| s.to_string()).collect());
+        self.twins.push(g);
+    }
     pub fn twin(&mut self, name: impl Into<String>, l: T, rel: Rel, r: T) {
         self.twins.push(goal(name, l, rel, r));
     }
@@ -50,7 +65,21 @@ impl<T: Scalar> Outcome<T> {
         if self.cut_from_goal.is_none() {
             self.cut_from_goal = Some(self.goals.len());
         }
-        self.cuts.push(CutSpec { node, name: name.into(), constraints: constraints.iter().map(|s| s.to_string()).collect() });
+        self.cuts.push(CutSpec { node, name: name.into(), constraints: constraints.iter().map(|s| s.to_string()).collect(), rels: vec![], local: false });
+    }
+    /// unconstrained abstraction used only by goals that name it via `prove_cuts`
+    pub fn cut_local(&mut self, node: T, name: impl Into<String>) {
+        self.cuts.push(CutSpec { node, name: name.into(), constraints: vec![], rels: vec![], local: true });
+    }
+    /// cut with relational constraints `lhs rel rhs` (terms built from the node itself and earlier
+    /// terms); each relation is proved with the earlier cuts only, then assumed wherever the cut is used
+    pub fn cut_rel(&mut self, node: T, name: impl Into<String>, rels: Vec<(T, Rel, T)>) {
+        if self.cut_from_goal.is_none() {
+            self.cut_from_goal = Some(self.goals.len());
+        }
+        let name: String = name.into();
+        let rels = rels.into_iter().enumerate().map(|(k, (l, rel, r))| goal(format!("cut {} rel#{}", name, k), l, rel, r)).collect();
+        self.cuts.push(CutSpec { node, name, constraints: vec![], rels, local: false });
     }
 }
 
@@ -248,6 +277,14 @@ enum QKind {
     Twin { path: usize, name: String },
 }
 
+/// constant goals decided without the solver: (path, goal name, holds)
+struct ConstGoal {
+    path: usize,
+    name: String,
+    holds: bool,
+    twin: bool,
+}
+
 pub struct RunCfg {
     pub tier: Tier,
     pub seed: u64,
@@ -339,6 +376,12 @@ pub fn replay_goal<H: Harness>(h: &H, name: &str, model: &BTreeMap<String, f64>,
 pub fn check_harness<H: Harness>(h: &H, cfg: &RunCfg) -> PartResult {
     let t0 = std::time::Instant::now();
     let mut res = PartResult { part: h.name(), harnesses: 1, ..Default::default() };
+    if let Ok(only) = std::env::var("SYMX_ONLY") {
+        if !h.name().contains(&only) {
+            res.harnesses = 0;
+            return res;
+        }
+    }
     let fp = h.mode() == Mode::Fp;
     let ecfg = ExploreCfg { mode: h.mode(), max_paths: h.max_paths(), ..Default::default() };
     let (paths, complete) = explore(ecfg, || {
@@ -360,6 +403,7 @@ pub fn check_harness<H: Harness>(h: &H, cfg: &RunCfg) -> PartResult {
     let mut kinds: Vec<QKind> = vec![];
     let mut all_vars: BTreeSet<String> = BTreeSet::new();
     let mut path_groups: HashMap<usize, usize> = HashMap::new();
+    let const_goals: RefCell<Vec<ConstGoal>> = RefCell::new(vec![]);
 
     for (pi, p) in paths.iter().enumerate() {
         res.branch_decisions += p.taken.len();
@@ -388,8 +432,17 @@ pub fn check_harness<H: Harness>(h: &H, cfg: &RunCfg) -> PartResult {
         let base_opts = h.emit_opts();
         // cut maps: for goal index >= cut_from_goal, all cuts apply
         let mut cutmap: HashMap<u32, Cut> = HashMap::new();
+        let mut cutmap_all: HashMap<u32, Cut> = HashMap::new();
         for c in &o.cuts {
-            cutmap.insert(c.node.0, Cut { name: c.name.clone(), constraints: c.constraints.clone() });
+            // a constant needs no abstraction (and, terms being hash-consed, cutting it would
+            // replace every occurrence of that constant)
+            if matches!(nodes[c.node.0 as usize], Node::Const(_) | Node::CF(_)) {
+                continue;
+            }
+            cutmap_all.insert(c.node.0, Cut { name: c.name.clone(), constraints: c.constraints.clone() });
+            if !c.local {
+                cutmap.insert(c.node.0, Cut { name: c.name.clone(), constraints: c.constraints.clone() });
+            }
         }
         let nocuts: HashMap<u32, Cut> = HashMap::new();
 
@@ -401,6 +454,17 @@ pub fn check_harness<H: Harness>(h: &H, cfg: &RunCfg) -> PartResult {
                 let mut vars = leaf_names(nodes, l, cuts);
                 vars.extend(leaf_names(nodes, r, cuts));
                 v.push(Cond { nodes: [l, r], smt: Box::new(move |e: &Emitted| rel_smt(rel, e.n(l), e.n(r), fp)), vars, max_node: l.max(r) });
+            }
+            for c in &o.cuts {
+                if !cuts.contains_key(&c.node.0) {
+                    continue;
+                }
+                for g in &c.rels {
+                    let (l, r, rel) = (g.lhs.0, g.rhs.0, g.rel);
+                    let mut vars = leaf_names(nodes, l, cuts);
+                    vars.extend(leaf_names(nodes, r, cuts));
+                    v.push(Cond { nodes: [l, r], smt: Box::new(move |e: &Emitted| rel_smt(rel, e.n(l), e.n(r), fp)), vars, max_node: c.node.0 });
+                }
             }
             for (a, val) in &p.taken {
                 let [l, r] = a.nodes();
@@ -534,10 +598,37 @@ pub fn check_harness<H: Harness>(h: &H, cfg: &RunCfg) -> PartResult {
                 (None, Some(_)) => kind == 1, // twins use cuts when there are any
                 _ => false,
             };
-            let cuts = if use_cuts { &cutmap } else { &nocuts };
+            let filtered: HashMap<u32, Cut>;
+            let cuts = if let Some(only) = &g.only_cuts {
+                filtered = cutmap_all.iter().filter(|(_, c)| only.iter().any(|p| c.name.starts_with(p.as_str()))).map(|(k, v)| (*k, v.clone())).collect();
+                &filtered
+            } else if use_cuts {
+                &cutmap
+            } else {
+                &nocuts
+            };
             let (l, r, rel) = (g.lhs.0, g.rhs.0, g.rel);
             let ng = move |e: &Emitted| rel_smt(rel, e.n(l), e.n(r), fp);
             let no_vars = leaf_names(nodes, l, cuts).is_empty() && leaf_names(nodes, r, cuts).is_empty();
+            if no_vars {
+                // both sides constant: decide exactly, no query (a false constant goal means
+                // "this path must be infeasible" and is settled by the feasibility verdict)
+                let cv = |i: u32| match &nodes[i as usize] {
+                    Node::Const(c) => Some(num::ToPrimitive::to_f64(c).unwrap()),
+                    Node::CF(b) => Some(f64::from_bits(*b)),
+                    _ => None,
+                };
+                if let (Some(a), Some(b)) = (cv(l), cv(r)) {
+                    let holds = match rel {
+                        Rel::Eq => a == b,
+                        Rel::Le => a <= b,
+                        Rel::Lt => a < b,
+                        Rel::Ne => a != b,
+                    };
+                    const_goals.borrow_mut().push(ConstGoal { path: pi, name: g.name.clone(), holds, twin: kind == 1 });
+                    return vec![];
+                }
+            }
             let (text, mv, obl) = build(&[l, r], cuts, None, Some(&ng), no_vars, g.pow);
             queries.push(Query { label: format!("{} path{} {}", h.name(), pi, g.name), text, timeout_s: timeout, model_vars: mv, expect_sat: Some(kind == 1) });
             kinds.push(match kind {
@@ -559,6 +650,9 @@ pub fn check_harness<H: Harness>(h: &H, cfg: &RunCfg) -> PartResult {
         }
         // cut justification: each constraint of each cut, proved without cuts
         for c in &o.cuts {
+            if !cutmap.contains_key(&c.node.0) {
+                continue;
+            }
             for (k, con) in c.constraints.iter().enumerate() {
                 let node = c.node.0;
                 let con2 = con.clone();
@@ -568,6 +662,24 @@ pub fn check_harness<H: Harness>(h: &H, cfg: &RunCfg) -> PartResult {
                 let (text, mv, obl) = build(&[node], &lower, None, Some(&ng), false, Some(h.pow_for_side_conditions()));
                 queries.push(Query { label: format!("{} path{} cut {} #{}", h.name(), pi, c.name, k), text, timeout_s: timeout, model_vars: mv, expect_sat: Some(false) });
                 kinds.push(QKind::CutJustify { path: pi, name: format!("cut {} {}", c.name, con) });
+                for (d, f, id) in obl {
+                    obligations.push((d, f, id, false));
+                }
+            }
+        }
+        // relational cut constraints: proved with the earlier cuts only
+        for c in &o.cuts {
+            if !cutmap.contains_key(&c.node.0) {
+                continue;
+            }
+            let node = c.node.0;
+            let lower: HashMap<u32, Cut> = cutmap.iter().filter(|(k, _)| **k < node).map(|(k, v)| (*k, v.clone())).collect();
+            for g in &c.rels {
+                let (l, r, rel) = (g.lhs.0, g.rhs.0, g.rel);
+                let ng = move |e: &Emitted| rel_smt(rel, e.n(l), e.n(r), fp);
+                let (text, mv, obl) = build(&[l, r], &lower, None, Some(&ng), false, None);
+                queries.push(Query { label: format!("{} path{} {}", h.name(), pi, g.name), text, timeout_s: timeout, model_vars: mv, expect_sat: Some(false) });
+                kinds.push(QKind::CutJustify { path: pi, name: g.name.clone() });
                 for (d, f, id) in obl {
                     obligations.push((d, f, id, false));
                 }
@@ -615,10 +727,32 @@ pub fn check_harness<H: Harness>(h: &H, cfg: &RunCfg) -> PartResult {
     }
 
     // ---- discharge
-    let (verdicts, stats) = run_queries(&cfg.solver, &queries);
-    res.queries_total = stats.total;
-    res.queries_distinct = stats.distinct;
-    res.solver_s = stats.solver_s;
+    // stage 1: path feasibility; stage 2: everything else, for the paths not pruned
+    let stage1: Vec<usize> = (0..queries.len()).filter(|k| matches!(kinds[*k], QKind::Feasible { .. })).collect();
+    let q1: Vec<Query> = stage1.iter().map(|k| queries[*k].clone()).collect();
+    let (v1, st1) = run_queries(&cfg.solver, &q1);
+    let mut pruned: BTreeSet<usize> = BTreeSet::new();
+    for (j, k) in stage1.iter().enumerate() {
+        if let (QKind::Feasible { path, .. }, Answer::Unsat) = (&kinds[*k], &v1[j].answer) {
+            pruned.insert(*path);
+        }
+    }
+    let path_of = |k: usize| match &kinds[k] {
+        QKind::Feasible { path, .. } | QKind::Goal { path, .. } | QKind::CutJustify { path, .. } | QKind::Defined { path, .. } | QKind::Twin { path, .. } => *path,
+    };
+    let stage2: Vec<usize> = (0..queries.len()).filter(|k| !matches!(kinds[*k], QKind::Feasible { .. }) && !pruned.contains(&path_of(*k))).collect();
+    let q2: Vec<Query> = stage2.iter().map(|k| queries[*k].clone()).collect();
+    let (v2, st2) = run_queries(&cfg.solver, &q2);
+    let mut verdicts: Vec<Verdict> = (0..queries.len()).map(|_| Verdict { answer: Answer::Unknown("skipped: path infeasible".into()), secs: 0.0, dedup: true }).collect();
+    for (j, k) in stage1.iter().enumerate() {
+        verdicts[*k] = v1[j].clone();
+    }
+    for (j, k) in stage2.iter().enumerate() {
+        verdicts[*k] = v2[j].clone();
+    }
+    res.queries_total = st1.total + st2.total;
+    res.queries_distinct = st1.distinct + st2.distinct;
+    res.solver_s = st1.solver_s + st2.solver_s;
     // a path is infeasible if one of its condition groups is unsat, feasible if all are sat
     let mut feasible: HashMap<usize, bool> = HashMap::new();
     let mut path_models: HashMap<usize, BTreeMap<String, f64>> = HashMap::new();
@@ -684,11 +818,75 @@ pub fn check_harness<H: Harness>(h: &H, cfg: &RunCfg) -> PartResult {
             }
         }
     }
+    for cg in const_goals.borrow().iter() {
+        if feasible.get(&cg.path) == Some(&false) {
+            continue;
+        }
+        if cg.twin {
+            res.twins_expected += 1;
+            if !cg.holds {
+                res.twins_refuted += 1;
+            } else {
+                res.hard_failures.push(format!("{} path{} {}: VACUITY — constant twin holds", h.name(), cg.path, cg.name));
+            }
+            continue;
+        }
+        if cg.holds {
+            res.goals_proved += 1;
+            continue;
+        }
+        // constant-false goal on a path that was not pruned
+        let m = path_models.get(&cg.path).cloned().unwrap_or_default();
+        match replay_goal(h, &cg.name, &m, cfg.seed, false) {
+            Some((m2, d)) => res.violations.push(Violation {
+                goal: cg.name.clone(),
+                site: h.name(),
+                witness_class: "goal-fails".into(),
+                desc: d,
+                replay: json!({"harness": h.name(), "goal": cg.name, "model": m2}),
+            }),
+            None => {
+                if feasible.get(&cg.path) == Some(&true) {
+                    res.hard_failures.push(format!("{} path{} {}: path not pruned (over-approximate feasibility) and the failure did not reproduce natively", h.name(), cg.path, cg.name))
+                } else {
+                    res.inconclusive.push(format!("{} path{} {}: feasibility of the path undecided", h.name(), cg.path, cg.name))
+                }
+            }
+        }
+    }
+    if std::env::var("SYMX_PROFILE").is_ok() {
+        let mut by: BTreeMap<&str, (usize, f64, f64)> = BTreeMap::new();
+        for (k, v) in verdicts.iter().enumerate() {
+            if v.dedup {
+                continue;
+            }
+            let kind = match &kinds[k] {
+                QKind::Feasible { .. } => "feasible",
+                QKind::Goal { .. } => "goal",
+                QKind::CutJustify { .. } => "cut",
+                QKind::Defined { .. } => "defined",
+                QKind::Twin { .. } => "twin",
+            };
+            let e = by.entry(kind).or_insert((0, 0.0, 0.0));
+            e.0 += 1;
+            e.1 += v.secs;
+            e.2 = e.2.max(v.secs);
+        }
+        eprintln!("PROFILE {} {:?}", h.name(), by);
+        for (k, v) in verdicts.iter().enumerate() {
+            if let Answer::Unknown(r) = &v.answer {
+                if !v.dedup {
+                    eprintln!("UNKNOWN {} feasible={:?} {}", queries[k].label, match &kinds[k] { QKind::Feasible { path, .. } | QKind::Goal { path, .. } | QKind::CutJustify { path, .. } | QKind::Defined { path, .. } | QKind::Twin { path, .. } => feasible.get(path) }, r);
+                }
+            }
+        }
+    }
     let mut first_model: Option<BTreeMap<String, f64>> = None;
     for (k, v) in verdicts.iter().enumerate() {
         match &v.answer {
             Answer::Unsat => res.queries_unsat += 1,
             Answer::Sat(_) => res.queries_sat += 1,
+            Answer::Unknown(r) if r.starts_with("skipped") => {}
             Answer::Unknown(_) => res.queries_inconclusive += 1,
         }
         let q = &queries[k];
